@@ -44,6 +44,12 @@ ROOT_NAMES = ["payload"] * 6 + ["Top 100% Hits", "pay load", "%s", "p%d", ".hidd
 
 def make_case(rng, tier, damage, max_damage=4):
     case = _make_case(rng, tier, damage, max_damage)
+    if rng.random() < 0.25 and not case.get("parent_like_name"):
+        # next to the payload, in the same parent directory, sits an INTACT copy whose name
+        # differs only in letter case (Album / album): it is not the torrent's content
+        case["case_sibling"] = True
+    if rng.random() < 0.2:
+        case["via_symlink"] = True
     return case
 
 
@@ -301,6 +307,12 @@ def build(box, case):
         name = case.get("root_name", "payload")
         write_tree(os.path.join(parent, name), [(rel, b.bytes()) for rel, b in files])
     root = os.path.join(parent, name)
+    if case.get("case_sibling") and name.swapcase() != name and name.swapcase() != pname:
+        sib = os.path.join(parent, name.swapcase())
+        if single:
+            write_tree(parent, [(name.swapcase(), files[0][1].bytes())])
+        else:
+            write_tree(sib, [(rel, b.bytes()) for rel, b in files])
     mpath = os.path.join(box, "m.torrent")
     if case["source"] == "own":
         raw = impl.create(case["creator"], root, mpath, piece_length=pl,
